@@ -61,7 +61,7 @@ type Task struct {
 	daemon      bool
 	auto        bool
 	wakeAt      time.Time // Sleep: not eligible before this (fake) time
-	noPark      bool // task-level switch: plain yield points do not park (gates still do)
+	noPark      bool      // task-level switch: plain yield points do not park (gates still do)
 
 	done chan struct{} // closed (visibly to the race detector) when the task finishes
 
@@ -88,14 +88,14 @@ type World struct {
 	tasks  [maxTasks]*Task
 	ntasks int32
 
-	step       int64
-	cur        int
-	policy     int
-	switchDen  int
-	budget     int
-	maxSteps   int
-	truncated  bool
-	Deadlocked bool
+	step         int64
+	cur          int
+	policy       int
+	switchDen    int
+	budget       int
+	maxSteps     int
+	truncated    bool
+	Deadlocked   bool
 	progress     int64 // releases that were not re-probes of a gate
 	deadlockMark int64
 
@@ -439,8 +439,8 @@ func (w *World) SetCase(c string) { w.caseKey = c }
 
 // SetCaseTotal states the size of that case space when the scenario itself can compute it.
 func (w *World) SetCaseTotal(n int) { w.caseTotal = n }
-func (w *World) Mix(s string)     { w.mix(s) }
-func (w *World) SetMaxSteps(n int) { w.maxSteps = n }
+func (w *World) Mix(s string)       { w.mix(s) }
+func (w *World) SetMaxSteps(n int)  { w.maxSteps = n }
 
 // Note from the scheduler goroutine.
 func (w *World) Note(format string, args ...any) {
@@ -790,22 +790,22 @@ func bubbleGoroutines() []stuckG {
 
 // Result of one run.
 type RunResult struct {
-	Violations []Violation
-	Tape       []uint32
-	Trace      []string
-	Notes      []string
+	Violations  []Violation
+	Tape        []uint32
+	Trace       []string
+	Notes       []string
 	Fingerprint uint64
-	Steps      int64
-	Switches   int
-	Overlaps   int64
-	Faults     map[string]int
-	Hits       map[string]int64
-	Truncated  bool
-	SimTime    time.Duration
-	Nontrivial bool
-	TraceHash  uint64
-	Case       string
-	CaseTotal  int
+	Steps       int64
+	Switches    int
+	Overlaps    int64
+	Faults      map[string]int
+	Hits        map[string]int64
+	Truncated   bool
+	SimTime     time.Duration
+	Nontrivial  bool
+	TraceHash   uint64
+	Case        string
+	CaseTotal   int
 }
 
 func (w *World) result() *RunResult {
